@@ -302,7 +302,7 @@ impl Prop for C14 {
     const ID: &'static str = "C14";
     const PART: &'static str = "goodness-of-fit";
     const MAX_SHRINK_ITERS: u32 = 8;
-    const RULE: &'static str = "proptest-generated bound settings (boxes of 1-9 dims, 9-20 dims for a third of them, incl. 1e-3 and 1e4 scales, SO2 intervals, SO3 full and cones of radius [0.3, pi), compounds, SE2/SE3) x sampler seeds; N = 2e5 draws per setting (quick) / 1e6 (thorough). Per setting: Kolmogorov-Smirnov of every marginal against its exact CDF (coordinate, angle, rotation angle (theta - sin theta)/(tmax - sin tmax) relative to the cone centre, axis z-component, axis azimuth), sign symmetry of the quaternion, chi-square on an 8x8 grid for every pair of marginals (independence); 12 % of the settings with an SO3 part use a narrow cone (0.12-0.3 rad) with N = 2e4. Each test at alpha = 1e-9 and a failure must repeat on a second independent seed. One case = one setting; counters give the number of statistical tests and draws. Cannot see biases below about 1%. Non-trivial = setting with non-default bounds.";
+    const RULE: &'static str = "proptest-generated bound settings (boxes of 1-9 dims, 9-20 dims for a third of them, incl. 1e-3 and 1e4 scales, SO2 intervals, SO3 full and cones of radius [0.3, pi), compounds, SE2/SE3) x sampler seeds; N = 2e5 draws per setting (quick) / 1e6 (thorough). Per setting: Kolmogorov-Smirnov of every marginal against its exact CDF (coordinate, angle, rotation angle (theta - sin theta)/(tmax - sin tmax) relative to the cone centre, axis z-component, axis azimuth), sign symmetry of the quaternion, chi-square on an 8x8 grid for every pair of marginals (independence); 12 % of the settings with an SO3 part use a narrow cone (0.12-0.3 rad) with N = 2e4, 6 % a very narrow one (0.06-0.12 rad) with N = 2e3; a quarter of the boxes share a lower bound (or both bounds) across coordinates. Each test at alpha = 1e-9 and a failure must repeat on a second independent seed. One case = one setting; counters give the number of statistical tests and draws. Cannot see biases below about 1%. Non-trivial = setting with non-default bounds.";
     fn random_cases(tier: Tier) -> usize {
         tier.pick(96, 360)
     }
@@ -346,6 +346,19 @@ impl Prop for C14 {
                     let centre = bounds.map(|b| b.0).unwrap_or([0.0, 0.0, 0.0, 1.0]);
                     *bounds = Some((centre, ch.range(0.12, 0.3)));
                     n = tier.pick(20_000, 60_000);
+                    break;
+                }
+            }
+        }
+        // very narrow cones (0.06-0.12 rad): the rejection sampler needs 1e4-1e5 tries per
+        // draw, so 2 000 draws (KS critical distance 0.073 at alpha = 1e-9) - still far more than
+        // enough to see a sampler that gives up and returns something else
+        if ch.prob(0.06) {
+            for c in space.comps.iter_mut() {
+                if let Comp::SO3 { bounds } = c {
+                    let centre = bounds.map(|b| b.0).unwrap_or([0.0, 0.0, 0.0, 1.0]);
+                    *bounds = Some((centre, ch.range(0.06, 0.12)));
+                    n = tier.pick(2_000, 6_000);
                     break;
                 }
             }
